@@ -4,6 +4,8 @@ import DiskfsModel.Model.Iso.Layout
 import DiskfsModel.Model.Iso.Codec
 import DiskfsModel.Model.Iso.Reader
 import DiskfsModel.Model.Iso.Image
+import DiskfsModel.Model.Iso.Writes
+import DiskfsModel.Model.Iso.Susp
 namespace Driver.Iso
 open Diskfs Diskfs.Iso Driver
 
@@ -222,27 +224,34 @@ def hypsOK (i : ImageIn) (fuel : Nat) : Bool :=
     i.pvd.root.loc < 2 ^ 32 ∧ i.pvd.root.size < 2 ^ 32 ∧ i.pvd.root.date.length = 7 ∧ i.pvd.root.name.length = 1 ∧ i.pvd.tail.length = 1858) &&
   fits
 
+/-- rebuild the `ImageIn` of a real plain image: PVD, tree scanned from the directory extents, layout
+    lists ordered by location, path table bytes as found -/
+def loadPlain (path : String) (first : Nat) : IO (Except String ImageIn) := do
+  let ba ← IO.FS.readBinFile path
+  let img := devOf ba
+  let some pvd := decodePVD (readAt img first 2048) | return .error "err=pvd"
+  let bs := pvd.blocksize
+  let root : PEnt := { name := [0], isDir := true, loc := pvd.root.loc, size := pvd.root.size, date := pvd.root.date, content := [] }
+  let some b := scan img bs { ents := #[root], kids := #[[]], par := #[0] } 0 | return .error "err=scan"
+  let t : PTree := { n := b.ents.size, ent := fun i => b.ents.getD i root, kids := fun i => b.kids.getD i [], parent := fun i => b.par.getD i 0 }
+  let idx := List.range t.n
+  -- layout order = by location; an empty file occupies no block and shares its location with what follows
+  let key := fun (c : Nat) => 2 * (t.ent c).loc + (if (t.ent c).size > 0 then 1 else 0)
+  let byLoc := sortBy (fun (a c : Nat) => key a < key c)
+  return .ok { t := t, bs := bs, dirs := byLoc (idx.filter fun c => (t.ent c).isDir),
+               files := byLoc (idx.filter fun c => !(t.ent c).isDir),
+               pvd := pvd, ptLBytes := readAt img (pvd.ptL * bs) pvd.ptSize, ptMBytes := readAt img (pvd.ptM * bs) pvd.ptSize }
+
 /-- iso.encimg path= first= → the model ENCODES the image from the tree: CRC of every directory
     extent / of the PVD / of the two path tables as `ImageIn.writes` has them, whether the
     locations are `Placed`, whether the other hypotheses of `reader_finds_layout` hold, and (small
     trees) whether the pure reader over the model's own image returns the tree -/
 def encImg (args : List String) : IO String := do
   let some path := arg args "path" | return "err=nopath"
-  let ba ← IO.FS.readBinFile path
-  let img := devOf ba
-  let first := argNatD args "first" 32768
-  let some pvd := decodePVD (readAt img first 2048) | return "err=pvd"
-  let bs := pvd.blocksize
-  let root : PEnt := { name := [0], isDir := true, loc := pvd.root.loc, size := pvd.root.size, date := pvd.root.date, content := [] }
-  let some b := scan img bs { ents := #[root], kids := #[[]], par := #[0] } 0 | return "err=scan"
-  let t : PTree := { n := b.ents.size, ent := fun i => b.ents.getD i root, kids := fun i => b.kids.getD i [], parent := fun i => b.par.getD i 0 }
-  let idx := List.range t.n
-  -- layout order = by location; an empty file occupies no block and shares its location with what follows
-  let key := fun (c : Nat) => 2 * (t.ent c).loc + (if (t.ent c).size > 0 then 1 else 0)
-  let byLoc := sortBy (fun (a c : Nat) => key a < key c)
-  let i : ImageIn := { t := t, bs := bs, dirs := byLoc (idx.filter fun c => (t.ent c).isDir),
-                       files := byLoc (idx.filter fun c => !(t.ent c).isDir),
-                       pvd := pvd, ptLBytes := readAt img (pvd.ptL * bs) pvd.ptSize, ptMBytes := readAt img (pvd.ptM * bs) pvd.ptSize }
+  let .ok i ← loadPlain path (argNatD args "first" 32768) | return "err=load"
+  let t := i.t
+  let bs := i.bs
+  let pvd := i.pvd
   let ds := ",".intercalate (i.dirs.map fun d => s!"{(t.ent d).loc}:{crc32 (padBlock bs (t.dirBytes bs d))}")
   let placed := decide (i.mid = seqWr i.bs (dataStartSector + 2) (i.mid.map (·.data)))
   let walkOK : String :=
@@ -252,6 +261,81 @@ def encImg (args : List String) : IO String := do
       (if readImageP (applyWrs blank ws) (16 * bs) 64 == some (pvd, t.walk 64 [] 0) then "1" else "0")
     else "skipped"
   return s!"n={t.n}\td={ds}\tpvd={crc32 (encodePVD pvd)}\tplaced={if placed then 1 else 0}\thyp={if hypsOK i 64 then 1 else 0}\twalk={walkOK}"
+
+/-- iso.wlog path= first= → the WriteAt calls of Finalize as the model issues them (`ImageIn.writesGo`:
+    offset:length of every call, in order; empty writes are not calls), the volume size the model
+    computes (`ImageIn.volBlocks`) against the one in the PVD, and whether every write ends inside it -/
+def wlog (args : List String) : IO String := do
+  let some path := arg args "path" | return "err=nopath"
+  let .ok i ← loadPlain path (argNatD args "first" 32768) | return "err=load"
+  let ws := i.writesGo.filter fun w => w.data.length > 0
+  let inside := ws.all fun w => w.off + w.data.length ≤ i.volBlocks * i.bs
+  let zeroFill := ws.all fun w => (w.off != 0) || w.data.all (· == 0)
+  return s!"n={ws.length}\tvol={i.volBlocks}\tpvdvol={i.pvd.volSize}\tinside={if inside && zeroFill then 1 else 0}\tw={",".intercalate (ws.map fun w => s!"{w.off}:{w.data.length}")}"
+
+/-! ### system use areas (Model/Iso/Susp.lean) -/
+
+def hexOrDash (b : Bytes) : String := if b.isEmpty then "-" else toHex b
+
+def unDash (s : String) : Bytes := if s == "-" || s == "" then [] else (fromHex s).getD []
+
+/-- an extension as the engine names it: `n:<name hex>` is a rockRidgeName (the model makes its NM
+    entries), `b:<hex>` are the bytes of any other extension -/
+def extBytes (s : String) : Bytes :=
+  match s.splitOn ":" with
+  | ["n", h] => nmBytes (unDash h)
+  | [_, h] => unDash h
+  | _ => []
+
+/-- iso.asm exts=k:hex|… max= bs= ce=n,n,… reserve=0|1 → a=hex;hex;… (record area, continuation areas) | err -/
+def asmOp (args : List String) : String :=
+  let exts := (((arg args "exts").getD "").splitOn "|").filter (· != "") |>.map extBytes
+  let ce := natList ((arg args "ce").getD "-")
+  match assemble (argNatD args "reserve" 0 == 1) (argNatD args "bs" 2048) (assembleFuel exts) exts (argNatD args "max" 0) ce with
+  | none => "err"
+  | some as => "a=" ++ ";".intercalate (as.map hexOrDash)
+
+def sigStr (e : SEnt) : String :=
+  let bs : Bytes := match e with
+    | .nm .. => [78, 77]
+    | .sl .. => [83, 76]
+    | .ce .. => [67, 69]
+    | .other s => s
+  String.ofList (bs.map fun x => Char.ofNat x.toNat)
+
+/-- iso.susp area=hex ce=loc:off:hex;… → what the reader makes of a record's system use area, the
+    continuation areas being looked up by (block, offset): signatures, name, symlink target -/
+def suspOp (args : List String) : String :=
+  let area := unDash ((arg args "area").getD "-")
+  let tbl : List (Nat × Nat × Bytes) := (((arg args "ce").getD "").splitOn ";").filterMap fun s =>
+    match s.splitOn ":" with
+    | [l, o, h] => some (l.toNat!, o.toNat!, unDash h)
+    | _ => none
+  let rd := fun (loc off len : Nat) =>
+    match tbl.find? (fun t => t.1 == loc && t.2.1 == off) with
+    | some t => t.2.2.take len ++ zeros (len - t.2.2.length)
+    | none => zeros len
+  match readSusp rd area with
+  | none => "err"
+  | some es =>
+    let nm := match getFilename es with | some n => hexOrDash n | none => "none"
+    let tg := match readLink es with | some t => hexOrDash t | none => "none"
+    s!"sigs={",".intercalate (es.map sigStr)}\tname={nm}\ttarget={tg}"
+
+/-- iso.ucs2 cps=n,n,… b=hex → enc=hex dec=n,n,… -/
+def ucs2Op (args : List String) : String :=
+  let cps := natList ((arg args "cps").getD "-")
+  let b := unDash ((arg args "b").getD "-")
+  s!"enc={hexOrDash (ucs2Enc cps)}\tdec={strOfNats (ucs2Dec b)}"
+
+/-- iso.ptlookup recs=namehex:loc:parent;… path=hex/hex/… → loc= -/
+def ptLookupOp (args : List String) : String :=
+  let recs := (((arg args "recs").getD "").splitOn ";").filterMap fun s =>
+    match s.splitOn ":" with
+    | [n, l, p] => some ({ name := (fromHex n).getD [], loc := l.toNat!, parent := p.toNat! } : PtRec)
+    | _ => none
+  let parts := (((arg args "path").getD "").splitOn "/").filter (· != "") |>.map unDash
+  s!"loc={ptLookup recs parts}"
 
 end Driver.Iso
 
@@ -274,6 +358,11 @@ partial def loop (h : IO.FS.Stream) (out : IO.FS.Stream) : IO Unit := do
       | "iso.pvd" => pure (Driver.Iso.pvdOp args)
       | "iso.readp" => Driver.Iso.readP args
       | "iso.encimg" => Driver.Iso.encImg args
+      | "iso.wlog" => Driver.Iso.wlog args
+      | "iso.asm" => pure (Driver.Iso.asmOp args)
+      | "iso.susp" => pure (Driver.Iso.suspOp args)
+      | "iso.ucs2" => pure (Driver.Iso.ucs2Op args)
+      | "iso.ptlookup" => pure (Driver.Iso.ptLookupOp args)
       | _ => pure "unknown-op"
     out.putStrLn s!"model\t{id}\t{r}"
   | _ => pure ()
